@@ -137,6 +137,36 @@ Proof.
     intro l. apply lin_cnt_max_window, W.
 Qed.
 
+(* Ticks(o) without the minor ticks recorded (after Nice): the level is pinned by the admissible count of the level below *)
+Theorem lin_ticks_adm_window_none a b major : a < b ->
+  (forall l, lin_amb_level base eb a b false l = false) ->
+  lin_ticks_adm o base eb a b tolv (lin_search o base eb a b false) major None = true ->
+  exists l, lin_search o base eb a b false = FL_ok l /\ (1 <= o_max o)%Z /\
+    close_list tolv (lin_ticks_at base eb a b false l) major = true.
+Proof.
+  intros Lt W H. assert (Ho : a <= b) by lra. unfold lin_ticks_adm in H.
+  destruct (level_bounds o) as [[lo hi]|] eqn:Hb; [|discriminate].
+  apply andb_prop in H. destruct H as [Hm H]. apply Z.leb_le in Hm.
+  pose proof (lin_count_nonincreasing base eb a b lo hi He Ho) as Mono.
+  rewrite (lin_search_eq o base eb a b false He) in *.
+  match type of H with (if ?ex then _ else _) = true => destruct ex eqn:Hex end.
+  - clear H. rename Hex into H. apply existsb_exists in H. destruct H as (L & _ & H).
+    apply andb_prop in H. destruct H as [H Hlow]. apply andb_prop in H. destruct H as [H Hma].
+    apply andb_prop in H. destruct H as [H Hlen]. apply andb_prop in H. destruct H as [HL1 HL2].
+    apply Z.leb_le in HL1, HL2, Hlen.
+    rewrite (lin_at_adm_window _ _ _ _ _ _ _ _ (W L)) in Hma. cbn [andb] in Hma. apply andb_prop in Hma. destruct Hma as [_ Hma].
+    pose proof (obs_close_length _ _ _ (close_list_sound _ _ _ Hma)) as Lma.
+    exists L. split; [|auto].
+    apply (find_level_is_lowest o _ 0 lo hi L Hb Mono Hm (conj HL1 HL2)).
+    + rewrite (lin_count_is_length base eb a b He Ho), <- Lma. exact Hlen.
+    + intros l' Hl'. apply Bool.orb_true_iff in Hlow. destruct Hlow as [E|E]; [apply Z.eqb_eq in E; lia|].
+      apply Z.ltb_lt in E. rewrite (lin_cnt_max_window _ _ _ _ _ _ (W (L - 1)%Z)) in E.
+      assert ((lin_count base eb a b false (L - 1) <= lin_count base eb a b false l')%Z) by (apply Mono; lia). lia.
+  - destruct major as [|? ?]; [|discriminate].
+    rewrite (lin_none_adm_window o base eb a b false lo hi _ (lin_count base eb a b false)) in H; [discriminate | | exact Hb | exact Mono | reflexivity].
+    intro l. apply lin_cnt_max_window, W.
+Qed.
+
 (* Nice(o): the same for the rounded-out decisions *)
 Theorem lin_nice_adm_window smn smx ao bo : smn < smx ->
   (forall l, lin_amb_level base eb smn smx true l = false) ->
